@@ -14,39 +14,18 @@ structure D where
   txnFail : Bool
   pending : Option String
 
-def NR : Nat := 6
+def NR : Nat := 38   -- 0..5 as above, 6..37 = wide/0..31
 
 def D.fresh : D := { l := Lease.init, aclDeny1 := false, etcdUp := true, s3 := .healthy, txnFail := false, pending := none }
 
 def obs (d : D) : String :=
   let own := ((List.range NR).filter fun r => owns d.l 0 r).map toString
-  let kv := (List.range NR).map fun r =>
+  let kv := (List.range NR).filterMap fun r =>
     match d.l.kv r with
-    | some k => s!"{r}:{if k.owner = 0 then "A" else "B"}"
-    | none => s!"{r}:-"
-  s!"own={joinWith "," own} kv={joinWith "," kv}"
-
-/-- run one Acquire of broker `b` on `r` to completion (sequentially); `fail` makes the lease txn error out -/
-def runAcquire (l : Lease.State) (b r : Nat) (fail : Bool) : Lease.State × Option Res :=
-  let (l1, r1) := Lease.step .byRev l (.acquire b r)
-  match r1 with
-  | some x => (l1, some x)
-  | none =>
-    let rec go (fuel : Nat) (l : Lease.State) : Lease.State × Option Res :=
-      match fuel with
-      | 0 => (l, none)
-      | fuel + 1 =>
-        match l.acq b r with
-        | none => (l, none)
-        | some pc =>
-          let isTxn := match pc with | .txn _ => true | .re _ => true | _ => false
-          if fail && isTxn then ((Lease.step .byRev l (.abort b r)).1, some .err)
-          else
-            let (l', res) := Lease.step .byRev l (.step b r)
-            match res with
-            | some x => (l', some x)
-            | none => go fuel l'
-    go 12 l1
+    | some k => some s!"{r}:{if k.owner = 0 then "A" else "B"}"
+    | none => none
+  let bown := ((List.range NR).filter fun r => owns d.l 1 r).map toString
+  s!"own={joinWith "," own} bown={joinWith "," bown} kv={joinWith "," kv}"
 
 def resStr : Option Res → String
   | some .ok => "ok"
@@ -60,23 +39,42 @@ def parsePart (w : String) : Option (Nat × Bool) :=
   | [r, k] => r.toNat?.map fun r => (r, k == "v")
   | _ => none
 
-/-- the handler's produce path for the listed partitions; returns the result text -/
-def produce (d : D) (acks0 : Bool) (parts : List (Nat × Bool)) : D × String :=
-  -- acquirePartitionLeases: for every partition of the request, before any other check
-  let (l, leases) := parts.foldl (fun (acc : Lease.State × List (Nat × LeaseRes)) p =>
-      let (l, out) := acc
-      if owns l 0 p.1 then (l, out ++ [(p.1, LeaseRes.nil)])
-      else
-        let (l', res) := runAcquire l 0 p.1 d.txnFail
-        (l', out ++ [(p.1, ofRes res)])) (d.l, [])
-  let outs := parts.map fun p =>
-    let lease := (leases.find? fun x => x.1 == p.1).map (·.2) |>.getD .other
-    let i : PartIn := { aclOk := !(d.aclDeny1 && (p.1 == 3 || p.1 == 4)), etcdUp := d.etcdUp, lease := lease, s3 := d.s3,
-                        logOk := p.1 != 5, batchOk := p.2, appendOk := true, flushOk := true, acks0 := acks0, flushOnAck := true }
-    (p.1, producePart i)
+def envOf (d : D) (acks0 : Bool) (parts : List (Nat × Bool)) (p : Nat) : PartIn :=
+  { aclOk := !(d.aclDeny1 && (p == 3 || p == 4)), etcdUp := d.etcdUp, lease := .nil, s3 := d.s3,
+    logOk := p != 5, batchOk := ((parts.find? fun x => x.1 == p).map (·.2)).getD true,
+    appendOk := true, flushOk := true, acks0 := acks0, flushOnAck := true }
+
+def render (acks0 : Bool) (outs : List (Nat × PartOut)) : String :=
   let codes := if acks0 then "none" else joinWith "," (outs.map fun o => s!"{o.1}={o.2.code}")
   let writes := joinWith "," (outs.map fun o => s!"{o.1}={if o.2.flushed then 1 else 0}")
-  ({ d with l := l }, s!"codes={codes} writes={writes}")
+  s!"codes={codes} writes={writes}"
+
+/-- the handler's produce path for the listed partitions (Model/ProduceGate.produceRequest) -/
+def produce (d : D) (acks0 : Bool) (parts : List (Nat × Bool)) : D × String :=
+  let (l, outs) := produceRequest 0 d.txnFail (envOf d acks0 parts) d.l (parts.map (·.1))
+  ({ d with l := l }, render acks0 outs)
+
+/-- start broker 0's Acquire of `r` and stop right after its first lease transaction has executed -/
+def acquireUntilFirstTxn (l : Lease.State) (r : Nat) (fail : Bool) : Lease.State × Option Res :=
+  let (l1, r1) := Lease.step .byRev l (.acquire 0 r)
+  match r1 with
+  | some x => (l1, some x)
+  | none =>
+    let rec go (fuel : Nat) (l : Lease.State) : Lease.State × Option Res :=
+      match fuel with
+      | 0 => (l, none)
+      | fuel + 1 =>
+        match l.acq 0 r with
+        | some .g1 | some .grant | some (.g3 _) =>
+          let (l', res) := Lease.step .byRev l (.step 0 r)
+          match res with
+          | some x => (l', some x)
+          | none => go fuel l'
+        | some (.txn _) =>
+          if fail then ((Lease.step .byRev l (.abort 0 r)).1, some .err)   -- the transaction errors out: nothing to park after
+          else ((Lease.step .byRev l (.step 0 r)).1, none)
+        | _ => (l, none)
+    go 8 l1
 
 def expireAll (l : Lease.State) : Lease.State :=
   (List.range l.nextLease).foldl (fun l x =>
@@ -112,6 +110,42 @@ def stepLine (d : D) (ws : List String) : D × String :=
   | ["gproduce", acks, part] =>
     let (d', txt) := produce d (acks == "0") ([part].filterMap parsePart)
     ({ d' with pending := some txt }, "parked " ++ obs d')
+  | ["lproduce", acks, part] =>
+    -- the request is parked inside Acquire, between its first and (if any) second etcd round trip
+    match ([part].filterMap parsePart) with
+    | [(r, valid)] =>
+      if owns d.l 0 r then
+        let (d', txt) := produce d (acks == "0") [(r, valid)]
+        ({ d' with pending := some txt }, "parked " ++ obs d')
+      else
+        let (l1, res) := acquireUntilFirstTxn d.l r d.txnFail
+        match res with
+        | some x =>
+          -- the call finished before any lease transaction could park it
+          let i := { envOf d (acks == "0") [(r, valid)] r with lease := ofRes (some x) }
+          let d' := { d with l := l1, pending := some (render (acks == "0") [(r, producePart i)]) }
+          (d', "parked " ++ obs d')
+        | none =>
+          let d' := { d with l := l1, pending := some s!"L {acks} {part}" }
+          (d', "parked " ++ obs d')
+    | _ => (d, "bad-op")
+  | ["lresume"] =>
+    match d.pending with
+    | some txt =>
+      match words txt with
+      | ["L", acks, part] =>
+        match ([part].filterMap parsePart) with
+        | [(r, valid)] =>
+          -- finish the in-flight Acquire (if it already finished, the entry checks give the same answer)
+          let (l2, res) := match d.l.acq 0 r with
+            | some _ => finishAcquire 0 r d.txnFail 12 d.l
+            | none => runAcquire d.l 0 r d.txnFail
+          let i := { envOf d (acks == "0") [(r, valid)] r with lease := ofRes res }
+          let d' := { d with l := l2, pending := none }
+          (d', render (acks == "0") [(r, producePart i)] ++ " " ++ obs d')
+        | _ => (d, "bad-op")
+      | _ => let d' := { d with pending := none }; (d', txt ++ " " ++ obs d')
+    | none => (d, "bad-op")
   | ["gresume"] =>
     match d.pending with
     | some txt => let d' := { d with pending := none }; (d', txt ++ " " ++ obs d')
